@@ -104,7 +104,7 @@ func kindPairsWorkload(r *mon.Run, owner string) mon.Workload {
 
 // awkwardKeys: member names that read like syntax, contain the delimiters and escapes of the expression language,
 // or a dot (with a decoy: the nested path the dotted name would spell if it were split).
-var awkwardKeys = append([]string{"a.b", "a.b.c", "file.size", "app.kubernetes.io/name", "v1.2", ".", "a.", ".a", "\\", "\\\\", "\"", "\\\"", "a\\\"b", "C:\\\"Program Files\\\"", "\\\\\"", "'", "\\'", "`", "\\`", "a`b\\\"c",
+var awkwardKeys = append([]string{"", "a.b", "a.b.c", "file.size", "app.kubernetes.io/name", "v1.2", ".", "a.", ".a", "\\", "\\\\", "\"", "\\\"", "a\\\"b", "C:\\\"Program Files\\\"", "\\\\\"", "'", "\\'", "`", "\\`", "a`b\\\"c",
 	"\n", "a\tb", "\u00e9", "e\u0301", "\U0001F600", "\\u00e9", "\\n"}, c14Words...)
 
 // awkwardDoc holds key k with value "own", plus decoys: the nested path a dotted name would mean when split,
